@@ -812,6 +812,12 @@ impl<T: RefCnt, S: Strategy<T>> ArcSwapAny<T, S> {
     pub fn verif_ptr(&self) -> *mut T::Base {
         self.ptr.verif_peek()
     }
+
+    /// Simulation observer: the address of the storage (what writers announce to the helpers).
+    #[doc(hidden)]
+    pub fn verif_storage_addr(&self) -> usize {
+        &self.ptr as *const _ as usize
+    }
 }
 
 // Being phased out. Will deprecate once we verify in production that the new strategy works fine.
